@@ -19,6 +19,7 @@ RULE = ("(i) exhaustive value lattice: bounds = list of k in {0,1,2,3} sub-lists
         "ints and floats next to 2^53. Oracle: independent ordered "
         "validator (class + payload) and exact-rational grid end-point rule. Non-trivial = >= 2 simultaneous defects, or an "
         "accepted spec whose range is not a multiple of the precision.")
+RULE = RULE.replace('Oracle: independent ordered', 'After a successful check the grids are overwritten in place and the same specification is built and judged again. Oracle: independent ordered')
 ASSUMPTIONS = ["negative precisions, NaN and infinite bounds are not generated (the statement does not classify them)",
                "well-formed lattice specs whose grid would exceed 5e6 points are counted as excluded, not constructed",
                "grid element k may drift from lower+k*p by numpy.arange's own rounding: tolerance 4(k+1) ulp(max|bound|)"]
